@@ -18,7 +18,7 @@ ORDINARY = (ValueError, TypeError, IndexError, KeyError, NotImplementedError, Ru
 # ------------------------------------------------------------------ generation (parent process)
 _WEIGHTS = [("cartesian", 2), ("argcomb", 2), ("field", 2), ("withfield", 2), ("withfield_b", 3), ("rt", 5), ("ufunc", 3), ("addmasked", 4), ("filter", 3), ("num", 3),
             ("flatten", 5), ("localindex", 5), ("pad", 8), ("fillnone", 10), ("isnone", 8), ("mask", 7), ("singletons", 3), ("firsts", 3),
-            ("comb", 3), ("reduce", 6), ("sort", 4), ("concatperm", 3), ("bcperm", 3), ("slice", 8), ("sortbyarg", 3), ("concat0", 2), ("concat2", 5), ("concat1", 3), ("zip", 3), ("unflatten", 3),
+            ("comb", 3), ("reduce", 6), ("sort", 4), ("concatperm", 3), ("bcperm", 3), ("slice", 8), ("sortbyarg", 3), ("like", 3), ("nantonum", 2), ("concat0", 2), ("concat2", 5), ("concat1", 3), ("zip", 3), ("unflatten", 3),
             ("same", 2), ("maysame", 2)]
 _OPS = [name for name, w in _WEIGHTS for _ in range(w)]
 
@@ -47,6 +47,8 @@ def _rand_op(rng, focus=None):
             return {"k": "ellipsis"}
         # how an integer array is handed to __getitem__: NumPy array, Python list or ak.Array (three routes through the Python layer)
         return "slice", {"items": [item() for _ in range(rng.randint(1, 2))], "_how": rng.choice(["np", "list", "ak"])}
+    if kind == "like":
+        return "like", {"c": rng.choice([0, 1, 7])}
     if kind == "cartesian":
         return "cartesian", {"axis": 1}
     if kind == "argcomb":
@@ -148,6 +150,10 @@ def _call(ak, np, op, a, A):
             return np.newaxis if it["k"] == "newaxis" else Ellipsis
         items = [conv(it) for it in a["items"]]
         return A[items[0]] if len(items) == 1 else A[tuple(items)]
+    if op == "like":
+        return {0: ak.zeros_like, 1: ak.ones_like}[a["c"]](A) if a["c"] in (0, 1) else ak.full_like(A, a["c"])
+    if op == "nantonum":
+        return ak.nan_to_num(A)
     if op == "sortbyarg":
         return A[ak.argsort(A, axis=1)]
     if op == "num":
@@ -266,6 +272,8 @@ def h_chain(case, pick, st, stats):
             continue                                 # no such field anywhere in the type: a different question (KeyError)
         if op == "sortbyarg" and not re.match(r"^var \* [a-z0-9]+$", ty):
             continue                                 # the law is stated for lists of numbers only
+        if op == "like" and a["c"] == 7 and "bool" in ty:
+            continue                                 # full_like(x, 7) of booleans is True: not the constant the law names
         if op == "bcperm" and not (len(ak.fields(A)) >= 2 and not ak.fields(A)[0].isdigit()):
             continue                                 # needs named records with two or more fields somewhere below the top
         if op == "concatperm" and not (ty.startswith("{") and len(ak.fields(A)) >= 2):
